@@ -288,13 +288,15 @@ func qInvalid(src []byte, k int) bool {
 
 // ---------------------------------------------------------------- numbers
 
-// floatText(b, from): b[from:] was produced by AppendFloat (the ECMA-262
-// number-to-string rendering). The predicate is opaque: only AppendFloat's
-// contract establishes it, so a postcondition that demands it says "this text
-// was re-rendered, not copied".
+// FloatText(b, from, bits): b[from:] was produced by AppendFloat with the given
+// bit size (the ECMA-262 number-to-string rendering of a float32 or float64). The
+// predicate is opaque: only AppendFloat's contract establishes it, so a
+// postcondition that demands it says "this text was re-rendered with this
+// precision, not copied". (Exported so that jsontext's contracts can name it; the
+// file is compiled only under the verif tag.)
 //
-//@ spec floatText opaque
-func floatText(b []byte, from int) bool { return true }
+//@ spec FloatText opaque
+func FloatText(b []byte, from int, bits int) bool { return true }
 
 //@ extern strconv.AppendFloat(dst []byte, f float64, fmt byte, prec, bitSize int) (result []byte)
 //@ trusted strconv: appends the shortest decimal rendering of f; at least one byte
@@ -314,11 +316,12 @@ func floatText(b []byte, from int) bool { return true }
 
 //@ func AppendFloat
 //@ property C10 C13 C20
+//@ requires bit-size: bits == 32 || bits == 64
 //@ modifies dst[len(dst):cap(dst)]
 //@ ensures alias: sameOrFresh(result, dst)
 //@ ensures length: len(result) >= len(dst)
 //@ ensures prefix: vForall(0, len(dst), func(k int) bool { return result[k] == old(dst[k]) })
-//@ ensures-assumed produced: floatText(result, len(dst))
+//@ ensures-assumed produced: FloatText(result, len(dst), bits)
 
 // numIsFloat: the literal has a fraction or an exponent.
 //
@@ -344,9 +347,9 @@ func numIsFloat(src []byte, n int) bool {
 //@ ensures length: len(result0) >= len(dst)
 //@ ensures err-type: result2 == nil || isUnexpectedEOF(result2) || isInvalidTextErr(result2)
 //@ ensures verbatim: result2 == nil && !flags.Get(jsonflags.CanonicalizeNumbers) ==> len(result0) == len(dst)+result1 && vForall(0, result1, func(k int) bool { return result0[len(dst)+k] == src[k] })
-//@ ensures minus-zero: result2 == nil && flags.Get(jsonflags.CanonicalizeNumbers) && result1 == 2 && src[0] == '-' && src[1] == '0' ==> floatText(result0, len(dst))
-//@ ensures floats: result2 == nil && flags.Get(jsonflags.CanonicalizeNumbers) && flags.Get(jsonflags.CanonicalizeRawFloats) && numIsFloat(src, result1) ==> floatText(result0, len(dst))
-//@ ensures long-ints: result2 == nil && flags.Get(jsonflags.CanonicalizeNumbers) && flags.Get(jsonflags.CanonicalizeRawInts) && !numIsFloat(src, result1) && result1 >= 16 ==> floatText(result0, len(dst))
+//@ ensures minus-zero: result2 == nil && flags.Get(jsonflags.CanonicalizeNumbers) && result1 == 2 && src[0] == '-' && src[1] == '0' ==> FloatText(result0, len(dst), 64)
+//@ ensures floats: result2 == nil && flags.Get(jsonflags.CanonicalizeNumbers) && flags.Get(jsonflags.CanonicalizeRawFloats) && numIsFloat(src, result1) ==> FloatText(result0, len(dst), 64)
+//@ ensures long-ints: result2 == nil && flags.Get(jsonflags.CanonicalizeNumbers) && flags.Get(jsonflags.CanonicalizeRawInts) && !numIsFloat(src, result1) && result1 >= 16 ==> FloatText(result0, len(dst), 64)
 //@ ensures short-ints: result2 == nil && flags.Get(jsonflags.CanonicalizeNumbers) && !numIsFloat(src, result1) && result1 < 16 && !(result1 == 2 && src[0] == '-' && src[1] == '0') ==> len(result0) == len(dst)+result1 && vForall(0, result1, func(k int) bool { return result0[len(dst)+k] == src[k] })
 //@ loop 0 invariant -1 <= rangeindex && rangeindex < n && !isFloat && vForall(0, rangeindex+1, func(k int) bool { return !(src[k] == '.' || src[k] == 'e' || src[k] == 'E') })
 
